@@ -8,3 +8,23 @@ Local Open Scope R_scope.
    same segment at a smaller parameter *)
 Definition before_on (ra rb : near R) : Prop :=
   (n_idx ra < n_idx rb)%nat \/ (n_idx ra = n_idx rb /\ n_t ra < n_t rb).
+
+(* m consecutive vertices of a closed polyline starting at vertex index i and going round cyclically
+   (i <= number of vertices, m <= number of vertices) *)
+Definition cyclic_from {A : Type} (vs : list A) (i m : nat) : list A := firstn m (skipn i vs ++ firstn i vs).
+
+(* the index that segment k of a polyline gets when the vertex list is reversed (Polyline.flipped): the segments come in
+   reverse order with their ends exchanged; on a closed polyline the closing edge stays the last one *)
+Definition rev_seg_index (pl : polyline R) (k : nat) : nat :=
+  if pclosed pl && Nat.eqb (S k) (length (pv pl)) then k else (length (pv pl) - 2 - k)%nat.
+(* a segment with its ends exchanged *)
+Definition swap_seg (s : vec3 R * vec3 R) : vec3 R * vec3 R := (snd s, fst s).
+
+(* "the polyline does not touch itself near q": the nearest point recorded in r is the unique minimiser, every other
+   segment is strictly farther from q *)
+Definition unique_nearest (pl : polyline R) (q : vec3 R) (r : near R) : Prop :=
+  forall j s, j <> n_idx r -> nth_error (pl_segments pl) j = Some s -> n_d r < h_d (seg_hit_of ROps q s).
+
+(* what nearest reports on the reversed polyline: same point and distance, mirrored segment index, parameter 1 - t *)
+Definition flipped_near (pl : polyline R) (r : near R) : near R :=
+  Near (n_pt r) (rev_seg_index pl (n_idx r)) (n_d r) (1 - n_t r).
